@@ -283,6 +283,55 @@ func init() {
 			}
 			addShaOf(extra, b.ser)
 			return b.res(extra)
+		case "NewRouterIdentityWithCompressiblePadding":
+			var ri *router_identity.RouterIdentity
+			kc, err := key_certificate.NewKeyCertificateWithTypes(m.Int("st"), m.Int("ct"))
+			if err == nil {
+				ri, err = router_identity.NewRouterIdentityWithCompressiblePadding(mkPub(m.Int("ct"), m.Bytes("pub")), mkSpk(m.Int("st"), m.Bytes("spk")), &kc.Certificate)
+			}
+			b := built{ok: err == nil && ri != nil, err: errStr(err), reader: "ReadRouterIdentity"}
+			extra := map[string]any{}
+			if b.ok {
+				verr := ri.Validate()
+				b.hasValid, b.validOK, b.validErr = true, verr == nil, errStr(verr)
+				ser, serr := ri.KeysAndCert.Bytes()
+				b.ser, b.serOK = ser, serr == nil
+				d := ri.AsDestination()
+				extra["acc"] = accDest(&d)
+			}
+			addShaOf(extra, b.ser)
+			return b.res(extra)
+		case "NewPrivateKeysAndCert":
+			kc, err := key_certificate.NewKeyCertificateWithTypes(m.Int("st"), m.Int("ct"))
+			var pk *keys_and_cert.PrivateKeysAndCert
+			if err == nil {
+				var encPriv, sigPriv any
+				if !m.Bool("nilencpriv") {
+					encPriv = []byte{1, 2, 3}
+				}
+				if !m.Bool("nilsigpriv") {
+					sigPriv = []byte{4, 5, 6}
+				}
+				pk, err = keys_and_cert.NewPrivateKeysAndCert(kc, mkPub(m.Int("ct"), m.Bytes("pub")), m.Bytes("padding"), mkSpk(m.Int("st"), m.Bytes("spk")), encPriv, sigPriv)
+			}
+			b := built{ok: err == nil && pk != nil, err: errStr(err), reader: "ReadKeysAndCert"}
+			extra := map[string]any{}
+			if b.ok {
+				verr := pk.Validate()
+				b.hasValid, b.validOK, b.validErr = true, verr == nil, errStr(verr)
+				ser, serr := pk.KeysAndCert.Bytes()
+				b.ser, b.serOK = ser, serr == nil
+				extra["acc"] = accKAC(&pk.KeysAndCert)
+				extra["privs"] = pk.PrivateKey() != nil && pk.SigningPrivateKey() != nil
+			}
+			return b.res(extra)
+		case "NewCertificate":
+			c := certificate.NewCertificate()
+			b := built{ok: c != nil, reader: "ReadCertificate"}
+			if b.ok {
+				b.ser, b.serOK = c.Bytes(), true
+			}
+			return b.res(nil)
 		case "NewRouterAddress":
 			opts, _ := pairsToMap(m, "pairs")
 			ra, err := router_address.NewRouterAddress(uint8(m.Int("cost")), unixTime(m, "exp", "expneg", m.Int("expns")), string(m.Bytes("style")), opts)
